@@ -299,7 +299,10 @@ class Gen:
         if r.random() < 0.35:
             items.append('"int":%s' % q(r.choice(INTS)))
         if self.bad():
-            items.append(r.choice(['"zzz":True', '"int":"zzz"', '"neg":3', '"mod":True', '"pas":"yes"']))
+            items.append(r.choice(['"zzz":True', '"int":"zzz"', '"neg":3', '"mod":True', '"pas":"yes"',
+                                   # falsy values that EQUAL False (0, 0.0) or are merely falsy ("" , None): typ() validates with `in`
+                                   '"mod":0', '"int":0', '"neg":0', '"pas":0', '"prog":0', '"perf":0', '"mod":0.0', '"int":""', '"mod":""',
+                                   '"mod":None', '"int":None', '"mod":False', '"int":False', '"contr":0', '"refl":0']))
         return ".typ({%s})" % ",".join(items) if items else ""
 
     def S(self, d):
